@@ -1,20 +1,33 @@
 /* VERIF-UNIT
 {
  "name": "bb_u32_list_find",
- "props": ["C02", "C06"],
+ "props": [
+  "C02",
+  "C06"
+ ],
  "level": "U",
- "tier": "wip",
+ "tier": "quick",
  "harness": "h_bb_find",
- "enforce": ["ext2fs_u32_list_find"],
+ "enforce": [
+  "ext2fs_u32_list_find"
+ ],
  "loop_contracts": true,
- "defines": ["EXT2_CUSTOM_MEMORY_ROUTINES"],
+ "defines": [
+  "EXT2_CUSTOM_MEMORY_ROUTINES"
+ ],
  "unwind": 10,
  "unwind_reason": "no loop of the real code is unwound (in-place loop contract); 10 covers the loops of the contract-instrumentation library",
- "functions": ["lib/ext2fs/badblocks.c:ext2fs_u32_list_find", "lib/ext2fs/badblocks.c:ext2fs_u32_list_test"],
- "assumes": ["num <= size <= 2^30 (int fields)",
-	     "well_formed (strictly ascending) is a universally quantified precondition; it enters as INSTANCES: at the first and the last entry, at the lower bound of the key (arbitrary ghost position constrained only by these instances) and at every entry the binary search probes (ghost statement VERIF_GHOST_U32_LIST_FIND_PROBE = assume of the instance at mid; the list is not written by the search)",
-	     "needs the loop anchors of hooks-pending/ds.diff in lib/ext2fs/badblocks.c"],
- "native": false
+ "functions": [
+  "lib/ext2fs/badblocks.c:ext2fs_u32_list_find",
+  "lib/ext2fs/badblocks.c:ext2fs_u32_list_test"
+ ],
+ "assumes": [
+  "num <= size <= 2^30 (int fields)",
+  "well_formed (strictly ascending) is a universally quantified precondition; it enters as INSTANCES: at the first and the last entry, at the lower bound of the key (arbitrary ghost position constrained only by these instances) and at every entry the binary search probes (ghost statement VERIF_GHOST_U32_LIST_FIND_PROBE = assume of the instance at mid; the list is not written by the search)",
+  "needs the loop anchors of hooks-pending/ds.diff in lib/ext2fs/badblocks.c"
+ ],
+ "native": false,
+ "tier_after_hooks": "quick"
 }
 */
 /*
